@@ -243,6 +243,45 @@ def run(tier, seed):
         if why:
             fails += 1
             rep.violation("adapters:sync", {"input": name, "why": why})
+    # a callable whose results are sometimes plain and sometimes awaitable: every call individually gives the result
+    for first_plain in (True, False):
+        seq = [first_plain, not first_plain, not first_plain, first_plain]
+
+        def mixed(i):
+            return (i + 1) * 5 if seq[i] else coro_fn((i + 1) * 5 - 1)
+        s = a.sync(mixed)
+        got = []
+        for i in range(4):
+            try:
+                got.append(drive(s(i)))
+            except BaseException as e:  # noqa
+                got.append(repr(e))
+        rep.count(("sync-mixed", first_plain), True)
+        if got != [5, 10, 15, 20]:
+            fails += 1
+            rep.violation("adapters:sync", {"input": "callable returning plain values on some calls and awaitables on others", "why": "results %r, expected [5, 10, 15, 20]" % (got,)})
+    # any_iter of an awaitable that is also iterable (like asyncio.Future / Task, whose __iter__ is __await__)
+    class FutureOfIterable:
+        def __init__(self, value):
+            self.value = value
+
+        def __await__(self):
+            return self.value
+            yield
+
+        __iter__ = __await__
+    for cont in ("list", "async"):
+        base = mk_items(3)
+        log = []
+        c = LogList(log, base) if cont == "list" else LogAsync(log, base)
+        try:
+            got = drive(take_n(a.any_iter(FutureOfIterable(c)), 5, log))
+        except BaseException as e:  # noqa
+            got = repr(e)
+        rep.count(("any_iter-future", cont), True)
+        if not (isinstance(got, list) and len(got) == 3 and builtins.all(x is y for x, y in builtins.zip(got, base))):
+            fails += 1
+            rep.violation("adapters:any_iter", {"shape": "an awaitable that also defines __iter__ (Future-like) resolving to a %s" % cont, "why": "any_iter yielded %r" % (got,)})
     if not callable(a.sync) or _raises(lambda: a.sync(3)) is not TypeError:
         fails += 1
         rep.violation("adapters:sync", {"why": "sync(non-callable) must raise TypeError"})
